@@ -216,7 +216,7 @@ def _reads_own_text(vm) -> bool:
 # G4 TABLE-AGREE
 
 
-@rule("G4", "TABLE-AGREE: TABLE[x.text] is total and tight w.r.t. the literals member x can match", ["C01", "C15", "C04"], floor=10)
+@rule("G4", "TABLE-AGREE: TABLE[x.text] is total and tight w.r.t. the literals member x can match", ["C01", "C15", "C04"], floor=3)
 def g4(ctx: Ctx):
     p = peg(ctx)
     vmod = visitormodel(ctx)
